@@ -27,7 +27,8 @@ CONSTANTS Mode,        \* "pixels" | "ridges"
           MapH, MapW,  \* ridges mode: size of the network's maps (of the rotated image)
           Dss,         \* down-sampling factors
           Rows,        \* ridge slots: set of map rows (at least 15 apart)
-          X0s, Lens    \* first map column and length of a ridge; length 0 stands for the shortest admissible ridge
+          X0s, Lens,   \* first map column and length of a ridge; length 0 stands for the shortest admissible ridge
+          Dys          \* rises of a ridge from its first to its last column (0 = flat); all ridges of a configuration are parallel
 
 Abs(a) == IF a < 0 THEN -a ELSE a
 Max2(a, b) == IF a > b THEN a ELSE b
@@ -87,12 +88,15 @@ Build(rows, ch, ep) ==                        \* ridges in increasing row order
              rest == Build(rows \ {y}, ch, ep)
          IN IF ch[y] = <<0, 0>> THEN rest
             ELSE <<[y |-> y, x0 |-> ch[y][1], x1 |-> ch[y][1] + RidgeLen(ch[y], ep) - 1,
-                    a2 |-> Asc2(y), d2 |-> Desc2(y)]>> \o rest
+                    a2 |-> Asc2(y), d2 |-> Desc2(y), dy |-> 0]>> \o rest
 RidgeInit == /\ Mode = "ridges"
-             /\ \E k \in 0..3, ds \in Dss, ep \in BOOLEAN, rm \in BOOLEAN, ch \in [Rows -> Options] :
+             /\ \E k \in 0..3, ds \in Dss, ep \in BOOLEAN, rm \in BOOLEAN, dy \in Dys, ch \in [Rows -> Options] :
                    /\ \E y \in Rows : ch[y] # <<0, 0>>
                    /\ \A y \in Rows : ch[y] # <<0, 0>> => ch[y][1] + RidgeLen(ch[y], ep) - 1 <= MapW - 1
-                   /\ cfg = [k |-> k, ds |-> ds, ep |-> ep, rm |-> rm, ridges |-> Build(Rows, ch, ep)]
+                   \* a sloped ridge stays inside the maps and is long enough to be "gently" sloped
+                   /\ (dy # 0) => \A y \in Rows : ch[y] # <<0, 0>> => (y + dy <= MapH - 4 /\ RidgeLen(ch[y], ep) >= 2 * dy)
+                   /\ cfg = [k |-> k, ds |-> ds, ep |-> ep, rm |-> rm,
+                             ridges |-> [i \in 1..Len(Build(Rows, ch, ep)) |-> [Build(Rows, ch, ep)[i] EXCEPT !.dy = dy]]]
              /\ pc = "maps" /\ lines = <<>>
 
 \* shapes: the maps belong to the rotated image
@@ -108,7 +112,7 @@ Parse == /\ pc = "maps"
          /\ lines' = [i \in 1..Len(cfg.ridges) |->
                          LET r == cfg.ridges[i]
                              hs == IF Variant = "nods" THEN 1 ELSE cfg.ds
-                         IN [p0 |-> <<cfg.ds * r.x0, cfg.ds * r.y>>, p1 |-> <<cfg.ds * r.x1, cfg.ds * r.y>>,
+                         IN [p0 |-> <<cfg.ds * r.x0, cfg.ds * r.y>>, p1 |-> <<cfg.ds * r.x1, cfg.ds * (r.y + r.dy)>>,
                              ha2 |-> hs * r.a2, hd2 |-> hs * r.d2]]
          /\ pc' = "parsed" /\ UNCHANGED cfg
 \* LayoutEngine.rotate_layout on every point
@@ -135,12 +139,12 @@ ScaledByDs == (Mode = "ridges" /\ pc = "parsed") =>
                  \A i \in 1..Len(lines) :
                     LET r == cfg.ridges[i] IN
                     /\ lines[i].ha2 = cfg.ds * r.a2 /\ lines[i].hd2 = cfg.ds * r.d2
-                    /\ lines[i].p0 = <<cfg.ds * r.x0, cfg.ds * r.y>> /\ lines[i].p1 = <<cfg.ds * r.x1, cfg.ds * r.y>>
+                    /\ lines[i].p0 = <<cfg.ds * r.x0, cfg.ds * r.y>> /\ lines[i].p1 = <<cfg.ds * r.x1, cfg.ds * (r.y + r.dy)>>
 BackToOriginal == (Mode = "ridges" /\ pc = "rotated") =>
                      \A i \in 1..Len(lines) :
                         LET r == cfg.ridges[i] IN
                         /\ Within(lines[i].p0, Expected(<<cfg.ds * r.x0, cfg.ds * r.y>>), 1, 1)
-                        /\ Within(lines[i].p1, Expected(<<cfg.ds * r.x1, cfg.ds * r.y>>), 1, 1)
+                        /\ Within(lines[i].p1, Expected(<<cfg.ds * r.x1, cfg.ds * (r.y + r.dy)>>), 1, 1)
 InsideOriginal == (Mode = "ridges" /\ pc = "rotated") =>
                      \A i \in 1..Len(lines) :
                         /\ lines[i].p0[1] >= 0 /\ lines[i].p0[1] <= OrigW /\ lines[i].p0[2] >= 0 /\ lines[i].p0[2] <= OrigH
